@@ -50,6 +50,29 @@ Definition adjust_brightness (adj : kernel) (valid identity : bool) (a : attrs) 
     let has_fgcolor :=
       match a_color a with
       | None => false
+      | Some s => negb (is_nil s) && negb (str_eqb s s_ansidefault) && negb (str_eqb s s_default)
+      end in
+    if has_fgcolor && no_background then
+      let color := match a_color a with Some s => s | None => [] end in
+      match assoc color ansi_colors_to_rgb with
+      | Some _ => match adj color with Some v => Ok (set_color (Some v) a) | None => Err 7 end
+      | None =>
+          if hex6_b color then
+            match adj color with Some v => Ok (set_color (Some v) a) | None => Err 7 end
+          else Err 1
+      end
+    else Ok a.
+
+(* AdjustBrightness as it stood before the fix 65ab1ba: 'default' counted as a foreground colour *)
+Definition adjust_brightness_pinned (adj : kernel) (valid identity : bool) (a : attrs) : res attrs :=
+  if negb valid then Err 2
+  else if identity then Ok a
+  else
+    let no_background :=
+      match a_bgcolor a with None => true | Some s => is_nil s || str_eqb s s_default end in
+    let has_fgcolor :=
+      match a_color a with
+      | None => false
       | Some s => negb (is_nil s) && negb (str_eqb s s_ansidefault)
       end in
     if has_fgcolor && no_background then
